@@ -223,7 +223,8 @@ func HarnessC14Run(a []int) {
 		in <- &knxnet.RoutingInd{Payload: x1}
 		in <- &knxnet.RoutingLost{Count: nondetU16()}
 		in <- &knxnet.RoutingInd{Payload: x2}
-		in <- &knxnet.RoutingBusy{WaitTime: 10 * time.Millisecond, Control: uint16(nondetChoice(2))}
+		// (an announced wait time of zero is legal: nothing to wait for, sending goes on)
+		in <- &knxnet.RoutingBusy{WaitTime: time.Duration(10*nondetChoice(2)) * time.Millisecond, Control: uint16(nondetChoice(2))}
 		go sender(2)
 		verifSleep(int64(time.Second))
 		shutdown()
